@@ -322,8 +322,8 @@ def explore(mod, tier, master, runs_override=None, workers=None, no_selftest=Fal
     incomplete = False
     ctx = multiprocessing.get_context('fork')
     ex = ProcessPoolExecutor(max_workers=workers, mp_context=ctx)
+    futs = {}
     try:
-        futs = {}
         for ch in chunks:
             enum_part = (cases is not None and ch[0] < n_enum)
             if enum_part and ch[-1] >= n_enum:
@@ -369,11 +369,17 @@ def explore(mod, tier, master, runs_override=None, workers=None, no_selftest=Fal
                 else:
                     incomplete = True
     finally:
-        procs = list((getattr(ex, '_processes', None) or {}).values())
-        ex.shutdown(wait=False, cancel_futures=True)
-        for p in procs:
+        if all(f.done() for f in futs):
+            ex.shutdown(wait=True)
+        else:
+            procs = list((getattr(ex, '_processes', None) or {}).values())
+            for p in procs:
+                try:
+                    p.kill()
+                except Exception:
+                    pass
             try:
-                p.kill()
+                ex.shutdown(wait=False, cancel_futures=True)
             except Exception:
                 pass
     explore_wall = time.time() - t0
@@ -458,6 +464,8 @@ def explore(mod, tier, master, runs_override=None, workers=None, no_selftest=Fal
         'workers': workers,
         'counters': {k: (round(v, 3) if isinstance(v, float) else v) for k, v in sorted(agg['stats'].items())},
         'distinct_abstract_states': len(agg['states']),
+        'distinct_executions': len(set(agg['digests'].values())),
+        'measure_of_distinctness': 'distinct_executions = number of different SHA-256 digests of the complete event log (thread switches, every frame sent and delivered, every callback); distinct_abstract_states = per-stack multiset of (table, session state, remaining-packets bucket) sampled during the run, where the check samples it',
         'violating_runs': len(agg['viol']),
         'violation_signatures': sorted(by_sig),
         'known_finding_runs': {k: v[1] for k, v in known_hits.items()},
